@@ -169,8 +169,10 @@ def step_contracts(run):
                     ema = z3.If(init, m_ * g + (1 - m_) * batch, batch)
                     base_h = r.hyps + facts
                     run.add(f"C12/ema-step-uninitialised[{tag}]/path{pi}", base_h + [z3.Not(init)], new == ema, "property", inst, replay=rp)
-                    run.add(f"C12/ema-step-initialised[{tag}]/path{pi}", base_h + [init, g != 1], new == ema, "property", inst, replay=rp)
-                    run.add(f"C12/ema-step-initialised-with-value-one[{tag}]/path{pi}", base_h + [init, g == 1], new == ema, "property", inst, replay=rp)
+                    run.add(f"C12/ema-step-initialised[{tag}]/path{pi}", base_h + [init, g != 1], new == ema, "property", inst,
+                            replay=lambda mo, sd, i=dict(inst): replay(mo, sd, i, scale_one="never"))
+                    run.add(f"C12/ema-step-initialised-with-value-one[{tag}]/path{pi}", base_h + [init, g == 1], new == ema, "property", inst,
+                            replay=lambda mo, sd, i=dict(inst): replay(mo, sd, i, scale_one="exactly"))
                     if hook == "output":
                         # the hook returns forward(input) evaluated with the NEW output scale; after a first batch nothing saturates
                         okret = is_wrapper(ret) and ret.cls.name == "QBytesTensor" and ret.fields["_scale"] is new_t
@@ -204,7 +206,8 @@ def build(run):
 
 
 # ------------------------------------------------------------------------------------------------ native replay
-def replay(model, seed, inst):
+def replay(model, seed, inst, scale_one="any"):
+    """scale_one: 'never' - no calibrated scale is exactly 1 (but some are within 1e-5 of it); 'exactly' - the first batch gives scale 1.0; 'any' - both."""
     import torch
     from optimum.quanto import Calibration, qtypes, quantize
     from optimum.quanto.nn import QLinear
@@ -213,7 +216,9 @@ def replay(model, seed, inst):
     aq = qtypes[inst["activations"]]
     qmax = QMAX[inst["activations"]]
     for m in (0.0, 0.5, 0.9):
-        for mags in ((1.0, 3.0, 0.5), (float(qmax), float(qmax) / 10, 1.0)):
+        near = (float(qmax) * (1 + 4e-6), float(qmax) / 10, 1.0)
+        exact = (float(qmax), float(qmax) / 10, 1.0)
+        for mags in {"never": ((1.0, 3.0, 0.5), near), "exactly": (exact,), "any": ((1.0, 3.0, 0.5), near, exact)}[scale_one]:
             lin = torch.nn.Linear(4, 3)
             qlin = QLinear.from_module(lin, weights=qtypes["qint8"], activations=aq)
             exp_in = None
